@@ -59,6 +59,7 @@ K_SCALED = 'C08:prop_info:scaled-unit-lost'
 K_VOLUME = 'C08:atom_data:volume-unit-missing'
 K_LJ_ANG = 'C08:atom_data:lj-ang-units'
 K_LJ_TORQUE = 'C08:atom_dump:lj-torque-none'
+K_UPOS = 'C08:atom_dump:upos-scaled-with-pos'
 
 
 # ----------------------------------------------------------------------------- tree state (guards only)
@@ -444,11 +445,19 @@ def check_wrapped_cell(loaded, S, T, what):
 
 def oracle_data(case):
     import atomman as am
-    sysd, opt, pert = case['sys'], case['opt'], case['pert']
+    sysd = case['sys']
     S = G.snapshot(sysd)
+    tmp = _Tmp()
+    try:
+        return judge_data(am, G.make_system(am, S), S, case['opt'], case['pert'], tmp, cell_labels(S, sysd))
+    finally:
+        tmp.close()
+
+
+def judge_data(am, system, S, opt, pert, tmp, labels):
+    """one dump('atom_data') of `system` (whose state is the snapshot S) + load, judged against S"""
     n = len(S['s'])
     style, units, fmt = opt['style'], opt['units'], opt['fmt']
-    labels = cell_labels(S, sysd)
     labels.update({'style_' + style.split()[0], 'units_' + units, 'fmt_' + fmt[-1], 'src_' + pert['source']})
     cols, vcols = G.style_props(style)
     carried = list(cols)
@@ -456,9 +465,7 @@ def oracle_data(case):
         carried += [('velocity', (3,), 'f', 'velocity')] + list(vcols)
         labels.add('velocities')
     subs = style.split()[1:] if style.startswith('hybrid') else [style]
-    tmp = _Tmp()
-    try:
-        system = G.make_system(am, S)
+    if True:
         try:
             text, rest = _dump(system, 'atom_data', opt['target'], tmp, atom_style=style, units=units,
                                float_format=fmt, safecopy=opt['safecopy'])
@@ -547,14 +554,88 @@ def oracle_data(case):
         if (labels & {'tilted', 'origin'}) and 'outside' in labels and (style != 'atomic' or units != 'metal') and rank1:
             labels.add('nt')
         return labels
-    finally:
-        tmp.close()
+
+
+# ============================================================================= column descriptions
+
+# explicit units offered for a quantity in the unit lists ('std' = the unit the LAMMPS unit style has for it)
+UNIT_FAMILY = {'length': ('nm', 'angstrom', 'pm'), 'velocity': ('m/s', 'angstrom/ps'), 'force': ('eV/angstrom', 'nN'),
+               'charge': ('e',), 'mass': ('amu', 'g/mol'), 'torque': ('eV', 'kcal/mol'), 'dipole': ('e*angstrom',),
+               None: ('GPa', 'eV', 'mJ/m^2')}
+_COLROUTES = G.column_routes(tuple(range(20)))
+_u6 = st.integers(0, 5)
+
+
+def _unit_token(draw, name, meta, std_ok):
+    """unit entry of one property of the explicit lists: None ('no conversion'), 'std', a unit string or 'scaled'"""
+    if name in ('spos', 'supos'):
+        return 'scaled'
+    k = draw(_u6)
+    if name in ('pos', 'upos'):
+        opts = [None, 'std', 'nm', 'angstrom', 'scaled' if name == 'pos' else 'pm', None]
+        u = opts[k]
+    elif meta is None or meta['dtype'] != 'f':
+        return None
+    else:
+        fam = UNIT_FAMILY.get(meta['q'], UNIT_FAMILY[None])
+        u = [None, None, 'std' if meta['q'] is not None else None, fam[0], fam[-1], None][k]
+    if u == 'std' and not std_ok:
+        u = None
+    return u
+
+
+def build_truth(am, S, names, unit_tokens, dtype_flags, lammps_units=None):
+    """truth entries (see gens_c08.describe) of the columns `names`; 'std' resolved to the unit string of the LAMMPS unit
+    style (only ever passed on to both the writer and the loader, and used to scale the tolerance)"""
+    truth = []
+    for i, nm in enumerate(names):
+        if nm in POSVARS:
+            shape, dt = (3,), 'f'
+        elif nm in ('atom_id', 'atype'):
+            shape, dt = (), 'i'
+        else:
+            shape, dt = tuple(S['meta'][nm]['shape']), S['meta'][nm]['dtype']
+        u = unit_tokens[i]
+        if u == 'std':
+            q = 'length' if nm in POSVARS else S['meta'][nm]['q']
+            u = None if lammps_units is None else am.lammps.style.unit(lammps_units)[q]
+        truth.append({'name': nm, 'shape': shape, 'unit': u,
+                      'dtype': ('int64' if dt == 'i' else 'float64') if dtype_flags[i % len(dtype_flags)] else None})
+    return truth
+
+
+def unit_size(u):
+    """size of an explicitly given unit in working units (tolerance scaling only)"""
+    if u is None or u == 'scaled':
+        return 1.0
+    import atomman.unitconvert as uc
+    return abs(float(uc.set_in_units(1.0, u)))
 
 
 # ============================================================================= dump file
 
 POSVARS = ('pos', 'spos', 'upos', 'supos')
 _POSV = st.lists(st.sampled_from(POSVARS), min_size=1, max_size=2, unique=True)
+_i4 = st.integers(0, 4)
+
+
+def _dump_opt(draw, sysd, units):
+    """options of one dump('atom_dump') + load: which columns, how they are described on either side"""
+    names = [p['name'] for p in sysd['props'] if p['name'] != 'atom_id']
+    mode = draw(st.sampled_from(['all', 'all', 'list', 'list', 'list']))
+    prop_name = cols = None
+    if mode == 'list':
+        explicit = draw(_i4) >= 1
+        meta = {p['name']: p for p in sysd['props']}
+        pv = draw(_POSV)
+        # with explicitly described columns the quantities that have a LAMMPS unit are always among them
+        body = pv + [nm for nm in names if draw(_bool) or (explicit and meta[nm]['q'] is not None)]
+        order = draw(_PERMS[len(body)])
+        prop_name = (['atom_id'] if draw(st.integers(0, 3)) else []) + ['atype'] + [body[i] for i in order]
+        if explicit:
+            cols = draw(_COLROUTES)
+            cols['units'] = [_unit_token(draw, nm, meta.get(nm), True) for nm in prop_name]
+    return prop_name, cols
 
 
 @st.composite
@@ -562,21 +643,14 @@ def dump_cases(draw):
     units = draw(st.sampled_from(G.UNIT_STYLES))
     fmt = draw(st.sampled_from(G.FORMATS[units]))
     k0 = draw(st.integers(0, len(G.DUMP_STD) - 1))
-    nstd = draw(st.integers(0, 3))
+    nstd = draw(st.sampled_from([0, 1, 2, 3, 1, 2]))
     want = [G.DUMP_STD[(k0 + 3 * i) % len(G.DUMP_STD)] for i in range(nstd)]
     want = [w for i, w in enumerate(want) if w not in want[:i]]
     sysd = draw(G.systems_for(True, tuple(want), (0, 2), True, True))
-    names = [p['name'] for p in sysd['props'] if p['name'] != 'atom_id']
-    mode = draw(st.sampled_from(['all', 'all', 'list', 'list', 'list']))
-    prop_name = None
-    if mode == 'list':
-        pv = draw(_POSV)
-        body = pv + [nm for nm in names if draw(_bool)]
-        order = draw(_PERMS[len(body)])
-        prop_name = (['atom_id'] if draw(st.integers(0, 3)) else []) + ['atype'] + [body[i] for i in order]
+    prop_name, cols = _dump_opt(draw, sysd, units)
     return {'sys': sysd,
             'opt': {'units': units, 'fmt': fmt, 'target': draw(TARGETS), 'prop_name': prop_name,
-                    'use_prop_info': draw(_bool)},
+                    'use_prop_info': draw(_bool), 'cols': cols},
             'pert': {'keys': draw(_keys12), 'shuffle': draw(_bool), 'source': draw(SOURCES)}}
 
 
@@ -590,18 +664,33 @@ def perturb_dump(text, n, pert):
 
 def oracle_dump(case):
     import atomman as am
-    sysd, opt, pert = case['sys'], case['opt'], case['pert']
+    sysd = case['sys']
     S = G.snapshot(sysd)
-    n = len(S['s'])
-    units, fmt = opt['units'], opt['fmt']
-    labels = cell_labels(S, sysd)
-    labels.update({'units_' + units, 'fmt_' + fmt[-1], 'src_' + pert['source']})
-    prop_name = opt['prop_name']
     tmp = _Tmp()
     try:
-        system = G.make_system(am, S)
+        return judge_dump(am, G.make_system(am, S), S, case['opt'], case['pert'], tmp, cell_labels(S, sysd))
+    finally:
+        tmp.close()
+
+
+def judge_dump(am, system, S, opt, pert, tmp, labels):
+    """one dump('atom_dump') of `system` (whose state is the snapshot S) + load, judged against S"""
+    n = len(S['s'])
+    units, fmt = opt['units'], opt['fmt']
+    labels.update({'units_' + units, 'fmt_' + fmt[-1], 'src_' + pert['source']})
+    prop_name = opt['prop_name']
+    cols = opt.get('cols') if prop_name is not None else None
+    if True:
         kwd = dict(lammps_units=units, float_format=fmt, return_prop_info=True)
-        if prop_name is not None:
+        truth = None
+        if cols is not None:
+            # the columns described explicitly: separate lists (whole lists left out, None entries) or prop_info dicts
+            truth = build_truth(am, S, prop_name, cols['units'], cols['dtypes'], units)
+            dkw, dl, id_named = G.describe('atom_dump', 'dump', cols['dvia'], truth, cols['dmask'], cols['dflav'])
+            kwd.update(dkw)
+            labels.add('dump_via_' + cols['dvia'])
+            labels |= {'dump_' + x for x in dl}
+        elif prop_name is not None:
             kwd['prop_name'] = list(prop_name)
         try:
             text, rest = _dump(system, 'atom_dump', opt['target'], tmp, **kwd)
@@ -613,15 +702,39 @@ def oracle_dump(case):
         written = list(prop_name) if prop_name is not None else (['atom_id', 'atype', 'pos'] + [k for k in S['props'] if k != 'atom_id'])
         nonstd_rank = any(len(S['meta'][k]['shape']) >= 1 and S['meta'][k]['q'] is None
                           for k in written if k in S['props'])
-        use_pi = bool(opt['use_prop_info'] or nonstd_rank)
         kw = dict(lammps_units=units)
         if S['symbols'] is not None:
             kw['symbols'] = list(S['symbols'])
-        if use_pi:
-            kw['prop_info'] = prop_info
+        if truth is not None:
+            lvia = cols['lvia']
+            use_pi = True               # every route of this branch tells the loader shapes and units
+            if lvia == 'returned':
+                kw['prop_info'] = prop_info
+                how = ', prop_info=<returned>'
+            else:
+                lkw, ll, id_named = G.describe('atom_dump', 'load', lvia, truth, cols['lmask'], cols['lflav'])
+                kw.update(lkw)
+                labels |= {'load_' + x for x in ll}
+                how = ', ' + ', '.join('%s=%r' % kv for kv in sorted(lkw.items()))
+            labels.add('load_via_' + lvia)
+            labels.add('explicit_columns')
+            if lvia != 'returned' and any(e['unit'] is None and e['name'] in S['props'] and S['meta'][e['name']]['dtype'] == 'f'
+                                          and S['meta'][e['name']]['q'] is not None
+                                          and unit_scale(am, units, S['meta'][e['name']]['q']) != 1.0 for e in truth):
+                labels.add('none_unit_std_prop')     # a None unit for a quantity whose LAMMPS unit is not the working unit
+            if any(e['dtype'] is not None for e in truth):
+                labels.add('explicit_dtype')
+            what = "load('atom_dump'%s) of dump(lammps_units=%r, float_format=%r, %s)" % (
+                how, units, fmt, ', '.join('%s=%r' % kv for kv in sorted(kwd.items()) if kv[0] in (
+                    'prop_name', 'table_name', 'shape', 'unit', 'dtype', 'prop_info')))
+        else:
+            use_pi = bool(opt['use_prop_info'] or nonstd_rank)
+            if use_pi:
+                kw['prop_info'] = prop_info
+            what = "load('atom_dump'%s) of dump(lammps_units=%r, float_format=%r, prop_name=%r)" % (
+                ', prop_info=<returned>' if use_pi else '', units, fmt, prop_name)
+        if 'prop_info' in kw and (truth is None or cols['lvia'] == 'returned'):
             labels.add('with_prop_info')
-        what = "load('atom_dump'%s) of dump(lammps_units=%r, float_format=%r, prop_name=%r)" % (
-            ', prop_info=<returned>' if use_pi else '', units, fmt, prop_name)
         L0 = _load(am, 'atom_dump', text, **kw)
         require(L0.natoms == n, lambda: '%s: natoms %d, expected %d' % (what, L0.natoms, n))
         # ---- cell and pbc
@@ -636,9 +749,10 @@ def oracle_dump(case):
         require((np.abs(ol - o) <= to).all(), lambda: '%s: origin %r expected %r (tol %r)' % (what, ol, o, to))
         require([bool(b) for b in L0.pbc] == list(S['pbc']), lambda: '%s: pbc %r, written %r' % (what, list(L0.pbc), S['pbc']))
         check_symbols_passthrough(L0, S, what)
-        # ---- order: ids present -> sorted by id
+        # ---- order: ids present (an 'id' column) -> sorted by id
         has_id = 'atom_id' in written
-        if has_id and 'atom_id' in S['props']:
+        id_known = has_id and (truth is None or id_named)
+        if id_known and 'atom_id' in S['props']:
             order = np.argsort(S['props']['atom_id'], kind='stable')
             labels.add('own_ids')
         else:
@@ -653,22 +767,36 @@ def oracle_dump(case):
         posvars = [k for k in written if k in POSVARS]
         firstpos = posvars[0]
         labels.add('first_' + firstpos)
+        tunit = {e['name']: e['unit'] for e in truth} if truth is not None else {}
         # the reader may take the positions from any of the position columns present: widest of their tolerances
         tpos = np.zeros_like(S['pos'])
-        if set(posvars) & {'pos', 'upos'}:
-            tpos = np.maximum(tpos, tol_for(fmt, Ulen, S['pos']))
-        scaled_cols = bool(set(posvars) & {'spos', 'supos'})
+        scaled_cols = False
+        for k in posvars:
+            if truth is not None:
+                if tunit[k] == 'scaled':
+                    scaled_cols = True
+                else:
+                    tpos = np.maximum(tpos, tol_for(fmt, unit_size(tunit[k]), S['pos']))
+            elif k in ('pos', 'upos'):
+                tpos = np.maximum(tpos, tol_for(fmt, Ulen, S['pos']))
+            else:
+                scaled_cols = True
         if scaled_cols:
             r_s, r_x = scaled_roundoff(S)
             ds = tol_for(fmt, 1.0, s) + r_s
+            # relative coordinates are unscaled with the cell read from the file (loaded box: V +- tV, o +- to)
             tpos = np.maximum(tpos, ds @ np.abs(V) + np.abs(s) @ np.broadcast_to(tV, (3, 3)) + to + r_x)
             labels.add('scaled_cols')
         try:
             cmp_values('pos', L0.atoms.pos, S['pos'][order], tpos[order], what)
         except Violation as v:
             lost = [pi['prop_name'] for pi in prop_info if pi['prop_name'] in ('spos', 'supos') and pi['unit'] is None]
-            if use_pi and scaled_cols and lost:
+            if use_pi and scaled_cols and lost and 'prop_info' in kw and kw['prop_info'] is prop_info:
                 raise Violation(v.detail + ' [returned prop_info has unit None for the scaled columns %r]' % lost, key=K_SCALED) from None
+            if truth is not None and tunit.get('pos') == 'scaled' and tunit.get('upos', 'scaled') != 'scaled':
+                # listed finding: the writer fills the xu yu zu columns from the pos columns AFTER those were scaled
+                raise Violation(v.detail + " [pos written with unit 'scaled' next to upos columns, which then hold "
+                                "box-relative values although their unit says Cartesian]", key=K_UPOS) from None
             raise
         # ---- other properties
         for k in written:
@@ -678,9 +806,10 @@ def oracle_dump(case):
             exp = S['props'][k][order]
             if use_pi or (len(meta['shape']) == 0) or meta['q'] is not None:
                 require(k in have, lambda: '%s: property %r missing (have %r)' % (what, k, have))
-                cmp_values(k, L0.atoms.view[k], exp, tol_for(fmt, unit_scale(am, units, meta['q']), exp), what)
+                U = unit_size(tunit[k]) if truth is not None else unit_scale(am, units, meta['q'])
+                cmp_values(k, L0.atoms.view[k], exp, tol_for(fmt, U, exp), what)
         # ---- perturbed / other source
-        perm_moves = has_id and pert['shuffle'] and _perm(pert['keys'], n) != list(range(n))
+        perm_moves = id_known and pert['shuffle'] and _perm(pert['keys'], n) != list(range(n))
         text2 = perturb_dump(text, n, pert) if perm_moves else text
         stream = pert['source'] in ('bytesio', 'file')
         src = tmp.source(pert['source'], text2)
@@ -705,8 +834,6 @@ def oracle_dump(case):
         if (labels & {'tilted', 'origin'}) and 'outside' in labels and (units != 'metal' or firstpos != 'pos') and rank1:
             labels.add('nt')
         return labels
-    finally:
-        tmp.close()
 
 
 # ============================================================================= table
@@ -715,15 +842,11 @@ TABLE_UNITS = {'length': ('nm', 'angstrom', 'pm'), 'velocity': ('m/s', 'angstrom
                None: ('GPa', 'eV', 'mJ/m^2')}
 
 
-@st.composite
-def table_cases(draw):
-    want = []
-    if draw(_bool):
-        want.append(('velocity', (3,), 'f', 'velocity'))
-    sysd = draw(G.systems_for(False, tuple(want), (1, 3), True, True))
+def _table_opt(draw, sysd):
+    """options of one dump('table') + load: which columns in which units, how they are described on either side"""
     names = ['atype', 'pos'] + [p['name'] for p in sysd['props']]
     mode = draw(st.sampled_from(['all', 'list', 'list']))
-    entries = None
+    entries = cols = None
     if mode == 'list':
         chosen = [nm for nm in names if nm in ('pos', 'atom_id') or draw(st.integers(0, 3))]
         order = draw(_PERMS[len(chosen)])
@@ -738,9 +861,21 @@ def table_cases(draw):
                 fam = TABLE_UNITS.get(meta['q'], TABLE_UNITS[None])
                 unit = fam[draw(st.integers(0, len(fam) - 1))]
             entries.append({'name': nm, 'unit': unit, 'as_id': nm == 'atom_id'})
+        if draw(_i4) >= 1:
+            cols = draw(_COLROUTES)
+    return entries, cols
+
+
+@st.composite
+def table_cases(draw):
+    want = []
+    if draw(_bool):
+        want.append(('velocity', (3,), 'f', 'velocity'))
+    sysd = draw(G.systems_for(False, tuple(want), (1, 3), True, True))
+    entries, cols = _table_opt(draw, sysd)
     return {'sys': sysd,
             'opt': {'entries': entries, 'fmt': draw(st.sampled_from(['%.13f', '%.8f', '%.5e', '%.16e'])),
-                    'header': draw(_bool), 'target': draw(TARGETS)},
+                    'header': draw(_bool), 'target': draw(TARGETS), 'cols': cols},
             'pert': {'keys': draw(_keys12), 'shuffle': draw(_bool), 'comments': draw(_bool), 'blank': draw(_bool),
                      'source': draw(SOURCES)}}
 
@@ -763,20 +898,37 @@ def perturb_table(text, n, pert, header, can_shuffle):
 
 def oracle_table(case):
     import atomman as am
-    import atomman.unitconvert as uc
-    sysd, opt, pert = case['sys'], case['opt'], case['pert']
+    sysd = case['sys']
     S = G.snapshot(sysd)
-    n = len(S['s'])
-    fmt = opt['fmt']
-    labels = cell_labels(S, sysd)
-    labels.update({'fmt_' + fmt[-1], 'src_' + pert['source']})
     tmp = _Tmp()
     try:
-        system = G.make_system(am, S)
+        return judge_table(am, G.make_system(am, S), S, case['opt'], case['pert'], tmp, cell_labels(S, sysd))
+    finally:
+        tmp.close()
+
+
+def judge_table(am, system, S, opt, pert, tmp, labels):
+    """one dump('table') of `system` (whose state is the snapshot S) + load, judged against S"""
+    import atomman.unitconvert as uc
+    n = len(S['s'])
+    fmt = opt['fmt']
+    labels.update({'fmt_' + fmt[-1], 'src_' + pert['source']})
+    if True:
         kwd = dict(float_format=fmt, header=bool(opt['header']), return_prop_info=True)
         entries = opt['entries']
+        cols = opt.get('cols') if entries is not None else None
         units = {}
-        if entries is not None:
+        truth = None
+        if cols is not None:
+            # the columns described explicitly: separate lists (whole lists left out, None entries) or prop_info dicts
+            truth = build_truth(am, S, [e['name'] for e in entries], [e['unit'] for e in entries], cols['dtypes'])
+            dkw, dl, id_named = G.describe('table', 'dump', cols['dvia'], truth, cols['dmask'], cols['dflav'])
+            kwd.update(dkw)
+            labels.add('dump_via_' + cols['dvia'])
+            labels |= {'dump_' + x for x in dl}
+            units = {e['name']: e['unit'] for e in entries}
+            written = [e['name'] for e in entries]
+        elif entries is not None:
             kwd['prop_name'] = [e['name'] for e in entries]
             kwd['unit'] = [e['unit'] for e in entries]
             units = {e['name']: e['unit'] for e in entries}
@@ -791,20 +943,36 @@ def oracle_table(case):
         text, rest = _dump(system, 'table', opt['target'], tmp, **kwd)
         prop_info = rest[0]
         box = am.Box(vects=S['V'].copy(), origin=S['o'].copy())
-        kw = dict(box=box, prop_info=prop_info)
+        kw = dict(box=box)
+        if truth is not None and cols['lvia'] != 'returned':
+            lkw, ll, id_named = G.describe('table', 'load', cols['lvia'], truth, cols['lmask'], cols['lflav'])
+            kw.update(lkw)
+            labels |= {'load_' + x for x in ll}
+            how = ', '.join('%s=%r' % kv for kv in sorted(lkw.items()))
+        else:
+            kw['prop_info'] = prop_info
+            how = 'prop_info=<returned>'
+        if truth is not None:
+            labels.add('load_via_' + cols['lvia'])
+            labels.add('explicit_columns')
+            if any(e['dtype'] is not None for e in truth):
+                labels.add('explicit_dtype')
+            if cols['lvia'] != 'returned' and any(e['unit'] is None for e in truth) and any(e['unit'] is not None for e in truth):
+                labels.add('mixed_none_units')
         if opt['header']:
             kw['header'] = 0
             labels.add('header')
         if S['symbols'] is not None:
             kw['symbols'] = list(S['symbols'])
-        what = "load('table', prop_info=<returned>) of dump('table', prop_name=%r, unit=%r, float_format=%r, header=%r)" % (
-            kwd.get('prop_name'), kwd.get('unit'), fmt, opt['header'])
+        what = "load('table', %s) of dump('table', %s, float_format=%r, header=%r)" % (
+            how, ', '.join('%s=%r' % kv for kv in sorted(kwd.items()) if kv[0] in (
+                'prop_name', 'table_name', 'shape', 'unit', 'dtype', 'prop_info')) or 'all properties', fmt, opt['header'])
         L0 = _load(am, 'table', text, **kw)
         require(L0.natoms == n, lambda: '%s: natoms %d, expected %d' % (what, L0.natoms, n))
         require(np.array_equal(L0.box.vects, box.vects) and np.array_equal(L0.box.origin, box.origin),
                 lambda: '%s: the box passed to load was changed' % what)
         check_symbols_passthrough(L0, S, what)
-        id_col = entries is not None and any(e['as_id'] for e in entries)
+        id_col = entries is not None and any(e['as_id'] for e in entries) and (truth is None or id_named)
         order = np.argsort(S['props']['atom_id'], kind='stable') if id_col else np.arange(n)
         have = L0.atoms_prop()
         V, o, s = S['V'], S['o'], S['s']
@@ -823,7 +991,7 @@ def oracle_table(case):
                     cmp_values(k, L0.atoms.view[k], exp, tol, what)
                 except Violation as v:
                     lost = [pi['prop_name'] for pi in prop_info if pi['prop_name'] == k and pi['unit'] is None]
-                    if lost:
+                    if lost and kw.get('prop_info') is prop_info:
                         raise Violation(v.detail + ' [returned prop_info has unit None for the scaled columns]', key=K_SCALED) from None
                     raise
                 continue
@@ -858,8 +1026,6 @@ def oracle_table(case):
         if rank1 and (conv or opt['header'] or pert['comments'] or perm_moves):
             labels.add('nt')
         return labels
-    finally:
-        tmp.close()
 
 
 def _shape_of(name, S):
@@ -934,16 +1100,22 @@ def _match_multiset(got, exp, tol):
 
 def oracle_poscar(case):
     import atomman as am
-    sysd, opt, pert = case['sys'], case['opt'], case['pert']
+    sysd = case['sys']
     S = G.snapshot(sysd)
+    tmp = _Tmp()
+    try:
+        return judge_poscar(am, G.make_system(am, S), S, case['opt'], case['pert'], tmp, cell_labels(S, sysd))
+    finally:
+        tmp.close()
+
+
+def judge_poscar(am, system, S, opt, pert, tmp, labels):
+    """one dump('poscar') of `system` (whose state is the snapshot S) + load, judged against S"""
     n = len(S['s'])
     fmt, scale = opt['fmt'], float(opt['scale'])
     cart = opt['coordstyle'][0] in 'cCkK'
-    labels = cell_labels(S, sysd)
     labels.update({'fmt_' + fmt[-1], 'src_' + pert['source'], 'cartesian' if cart else 'direct'})
-    tmp = _Tmp()
-    try:
-        system = G.make_system(am, S)
+    if True:
         kwd = dict(header=opt['header'], coordstyle=opt['coordstyle'], box_scale=scale, float_format=fmt)
         full = S['symbols'] is not None and None not in S['symbols']
         given = None
@@ -1020,6 +1192,243 @@ def oracle_poscar(case):
         if pert['trail'] or pert['indent'] or pert['eof']:
             labels.add('perturbed')
         if (labels & {'tilted', 'rotated', 'origin'}) and (labels & {'multitype', 'type_gap'}) and (scale != 1.0 or cart):
+            labels.add('nt')
+        return labels
+
+
+# ============================================================================= history on one object
+
+# One System object is written several times (data file with safecopy on and off, dump file, table, POSCAR, in any order),
+# with public modifications in between (box through three setters, positions, pbc, reads of derived quantities).  Every
+# dump is followed by its load and judged by the SAME judge_* function as in the single-dump clauses, against a numpy
+# snapshot of what the object is at that moment.  The snapshot is advanced by my own model of each step; where atomman
+# has recomputed coordinates itself (in-place wrap of dump('atom_data', safecopy=False), box_set(scale=True), scaled
+# assignment) the new raw arrays are read from the object, checked against the model to 1e-9 and then adopted, so that
+# the printed-precision tolerances of the judges are not eaten by the rounding of that recomputation.
+HIST_STYLES = ('atomic', 'charge', 'charge')
+_FACT = st.sampled_from([1.0, 1.5, 0.75, 2.0, 1.0, 1.25])
+_SHIFT = st.sampled_from([0.0, 0.0, 0.5, -1.25, 3.0])
+_STEPKIND = st.sampled_from(['data', 'data', 'data', 'dump', 'table', 'poscar', 'data', 'dump', 'table', 'poscar',
+                             'box', 'pos', 'pbc', 'read'])
+_f3 = st.lists(_FACT, min_size=3, max_size=3)
+_s3 = st.lists(_SHIFT, min_size=3, max_size=3)
+
+
+def _step(draw, kind, sysd, n):
+    if kind == 'data':
+        units = draw(st.sampled_from(G.UNIT_STYLES))
+        return {'op': 'data',
+                'opt': {'style': draw(st.sampled_from(HIST_STYLES)), 'units': units, 'fmt': draw(st.sampled_from(G.FORMATS[units])),
+                        'safecopy': draw(st.integers(0, 3)) == 0, 'target': draw(TARGETS), 'give_style': draw(_bool)},
+                'pert': {'keys': draw(_keys12), 'keys2': draw(_keys12), 'shuffle': draw(_bool), 'comments': draw(_bool),
+                         'blank': draw(_bool), 'title': draw(_bool), 'source': draw(SOURCES)}}
+    if kind == 'dump':
+        units = draw(st.sampled_from(G.UNIT_STYLES))
+        prop_name, cols = _dump_opt(draw, sysd, units)
+        return {'op': 'dump',
+                'opt': {'units': units, 'fmt': draw(st.sampled_from(G.FORMATS[units])), 'target': draw(TARGETS),
+                        'prop_name': prop_name, 'use_prop_info': draw(_bool), 'cols': cols},
+                'pert': {'keys': draw(_keys12), 'shuffle': draw(_bool), 'source': draw(SOURCES)}}
+    if kind == 'table':
+        entries, cols = _table_opt(draw, sysd)
+        return {'op': 'table',
+                'opt': {'entries': entries, 'fmt': draw(st.sampled_from(['%.13f', '%.8f', '%.5e', '%.16e'])),
+                        'header': draw(_bool), 'target': draw(TARGETS), 'cols': cols},
+                'pert': {'keys': draw(_keys12), 'shuffle': draw(_bool), 'comments': draw(_bool), 'blank': draw(_bool),
+                         'source': draw(SOURCES)}}
+    if kind == 'poscar':
+        give_symbols = False
+        if sysd['symbols'] is None or None in sysd['symbols']:
+            give_symbols = draw(st.integers(0, 2)) == 0
+        return {'op': 'poscar',
+                'opt': {'coordstyle': draw(st.sampled_from(COORDSTYLES)), 'scale': draw(st.sampled_from([1.0, 0.5, 3.7])),
+                        'fmt': draw(st.sampled_from(POSCAR_FORMATS)), 'header': draw(st.sampled_from(['', 'Al fcc', 'again # 2'])),
+                        'give_symbols': give_symbols, 'target': draw(TARGETS)},
+                'pert': {'trail': draw(_bool), 'indent': draw(_bool), 'eof': draw(_bool), 'source': draw(SOURCES)}}
+    if kind == 'box':
+        return {'op': 'box', 'how': draw(st.sampled_from(['vects', 'vectors', 'attr'])), 'f': draw(_f3), 'shift': draw(_s3),
+                'scale': draw(_bool)}
+    if kind == 'pos':
+        return {'op': 'pos', 'how': draw(st.sampled_from(['assign', 'slice', 'scaled'])), 'rel': draw(G._REL[n])}
+    if kind == 'pbc':
+        return {'op': 'pbc', 'pbc': draw(gens.pbcs)}
+    return {'op': 'read', 'what': draw(st.sampled_from(['reciprocal', 'spos', 'relative', 'df']))}
+
+
+@st.composite
+def history_cases(draw):
+    want = [('charge', (), 'f', 'charge')]
+    if draw(_bool):
+        want.append(('velocity', (3,), 'f', 'velocity'))
+    sysd = draw(G.systems_for(True, tuple(want), (0, 2), True, False))
+    n = len(sysd['rel'])
+    steps = []
+    for k in range(draw(st.integers(2, 5))):
+        kind = draw(_STEPKIND)
+        if k == 0 and kind in ('box', 'pos', 'pbc', 'read', 'poscar') and draw(_bool):
+            kind = 'data'
+        steps.append(_step(draw, kind, sysd, n))
+    return {'sys': sysd, 'steps': steps}
+
+
+def _with_state(S, V, o, pos):
+    S2 = dict(S)
+    S2['V'], S2['o'], S2['pos'] = V, o, pos
+    S2['s'] = (pos - o) @ np.linalg.inv(V)
+    return S2
+
+
+def _raw_state(system):
+    return (np.array(system.box.vects, dtype=float), np.array(system.box.origin, dtype=float),
+            np.array(system.atoms.pos, dtype=float))
+
+
+def _adopt(system, S, V, o, pos, what):
+    """the object's raw arrays must be the modelled ones to 1e-9; they become the new snapshot"""
+    V2, o2, p2 = _raw_state(system)
+    sc = max(np.abs(V).max(), np.abs(o).max(), np.abs(pos).max(), 1e-300)
+    t = 1e-9 * sc * max(1.0, np.linalg.cond(V))
+    require(np.abs(V2 - V).max() <= t and np.abs(o2 - o).max() <= t,
+            lambda: '%s: the box is\n%r %r\nexpected\n%r %r' % (what, V2, o2, V, o))
+    require(p2.shape == pos.shape and np.abs(p2 - pos).max() <= t,
+            lambda: '%s: positions are\n%r\nexpected\n%r' % (what, p2.tolist(), pos.tolist()))
+    return _with_state(S, V2, o2, p2)
+
+
+def _after_inplace_wrap(system, S, what):
+    """state of the object after the documented in-place wrap: periodic directions keep their vector and the atoms move by
+    whole vectors; a non-periodic direction keeps its direction, contains the old cell and every atom; returns the new
+    snapshot (read from the object) and whether anything changed"""
+    V, o, pos, s = S['V'], S['o'], S['pos'], S['s']
+    V2, o2, p2 = _raw_state(system)
+    cond = np.linalg.cond(V)
+    sc = max(np.abs(V).max(), np.abs(o).max(), np.abs(pos).max())
+    m = (p2 - pos) @ np.linalg.inv(V)
+    t = 1e-9 * cond * max(1.0, np.abs(s).max())
+    pbc = np.array(S['pbc'])
+    require(np.abs(m - np.round(m)).max() <= t and (np.abs(m[:, ~pbc]) <= t).all(),
+            lambda: '%s: the atoms of the object moved by %r box vectors (whole vectors along periodic directions only)' % (what, m.tolist()))
+    k = np.array([V2[i] @ V[i] / (V[i] @ V[i]) for i in range(3)])
+    require(np.abs(V2 - k[:, None] * V).max() <= 1e-9 * sc and (k >= 1 - 1e-9).all() and (np.abs(k[pbc] - 1) <= 1e-9).all(),
+            lambda: '%s: the box of the object became\n%r\nfrom\n%r' % (what, V2, V))
+    s2 = (p2 - o2) @ np.linalg.inv(V2)
+    require((s2 >= -t).all() and (s2 <= 1 + t).all(),
+            lambda: '%s: atoms of the object outside its box afterwards: relative coordinates %r' % (what, s2.tolist()))
+    changed = not (np.array_equal(V2, V) and np.array_equal(o2, o) and np.array_equal(p2, pos))
+    return _with_state(S, V2, o2, p2), changed
+
+
+def oracle_history(case):
+    import atomman as am
+    sysd = case['sys']
+    S = G.snapshot(sysd)
+    base = cell_labels(S, sysd)
+    labels = set()
+    n = len(S['s'])
+    tmp = _Tmp()
+    done = []
+    wrapped_inplace = extended_inplace = modified = False
+    ndumps = 0
+    try:
+        system = G.make_system(am, S)
+        for step in case['steps']:
+            op = step['op']
+            hist = ' [step %d on the same object, after %s]' % (len(done) + 1, ', '.join(done) or 'nothing')
+            try:
+                if op in ('data', 'dump', 'table', 'poscar'):
+                    judge = {'data': judge_data, 'dump': judge_dump, 'table': judge_table, 'poscar': judge_poscar}[op]
+                    before = _raw_state(system)
+                    sub = judge(am, system, S, step['opt'], step['pert'], tmp, set(base))
+                    ndumps += 1
+                    labels.add('dumped_' + op)
+                    needs_rel = op == 'data' or 'scaled' in sub or 'scaled_cols' in sub or 'direct' in sub
+                    if ndumps > 1:
+                        labels.add('redump')
+                    if wrapped_inplace and needs_rel:
+                        labels.add('rel_after_inplace_wrap')
+                    if extended_inplace and needs_rel:
+                        labels.add('rel_after_inplace_extension')
+                    if modified and needs_rel:
+                        labels.add('rel_after_modification')
+                    labels |= {x for x in sub if x in ('explicit_columns', 'none_unit_std_prop', 'extended', 'imageflags', 'stream')}
+                    if op == 'data' and not step['opt']['safecopy']:
+                        what = "dump('atom_data', safecopy=False)" + hist
+                        S, changed = _after_inplace_wrap(system, S, what)
+                        labels.add('inplace')
+                        if changed:
+                            wrapped_inplace = True
+                            if not np.array_equal(before[0], S['V']):
+                                extended_inplace = True
+                        done.append("dump('atom_data')")
+                    else:
+                        after = _raw_state(system)
+                        what = "dump(%r%s)" % ('atom_' + op if op in ('data', 'dump') else op, ', safecopy=True' if op == 'data' else '')
+                        require(all(np.array_equal(a, b) for a, b in zip(before, after)),
+                                lambda: '%s changed the object it wrote: box\n%r %r\nwas\n%r %r\npositions\n%r\nwere\n%r' % (
+                                    what + hist, after[0], after[1], before[0], before[1], after[2].tolist(), before[2].tolist()))
+                        if op == 'data':
+                            labels.add('safecopy')
+                        done.append(what)
+                elif op == 'box':
+                    V = np.array(step['f'], dtype=float)[:, None] * S['V']
+                    o = S['o'] + np.array(step['shift'], dtype=float)
+                    how = step['how']
+                    if how == 'attr' and not step['scale']:
+                        system.box.vects = V.tolist()
+                        system.box.origin = o
+                        txt = 'box.vects = ..; box.origin = ..'
+                    elif how == 'vectors':
+                        system.box_set(avect=V[0].copy(), bvect=list(V[1]), cvect=tuple(V[2]), origin=o.copy(), scale=bool(step['scale']))
+                        txt = 'box_set(avect=, bvect=, cvect=, origin=, scale=%r)' % step['scale']
+                    else:
+                        system.box_set(vects=V.copy(), origin=o.copy(), scale=bool(step['scale']))
+                        txt = 'box_set(vects=, origin=, scale=%r)' % step['scale']
+                    pos = S['s'] @ V + o if step['scale'] else S['pos']
+                    S = _adopt(system, S, V, o, pos, txt + hist)
+                    modified = True
+                    labels.add('box_modified')
+                    done.append(txt)
+                elif op == 'pos':
+                    rel = np.array(step['rel'], dtype=float).reshape(-1, 3)[:n]
+                    if len(rel) < n:
+                        rel = np.vstack([rel, np.full((n - len(rel), 3), 0.25)])
+                    pos = rel @ S['V'] + S['o']
+                    if step['how'] == 'assign':
+                        system.atoms.pos = pos.copy()
+                        txt = 'atoms.pos = ..'
+                    elif step['how'] == 'slice':
+                        system.atoms.pos[:] = pos
+                        txt = 'atoms.pos[:] = ..'
+                    else:
+                        system.atoms_prop('pos', value=rel.copy(), scale=True)
+                        txt = "atoms_prop('pos', value=.., scale=True)"
+                    S = _adopt(system, S, S['V'], S['o'], pos, txt + hist)
+                    modified = True
+                    labels.add('pos_modified')
+                    done.append(txt)
+                elif op == 'pbc':
+                    system.pbc = list(step['pbc'])
+                    S = dict(S)
+                    S['pbc'] = [bool(b) for b in step['pbc']]
+                    labels.add('pbc_modified')
+                    done.append('pbc = %r' % (step['pbc'],))
+                else:
+                    w = step['what']
+                    if w == 'reciprocal':
+                        system.box.reciprocal_vects
+                    elif w == 'spos':
+                        system.atoms_prop('pos', scale=True)
+                    elif w == 'relative':
+                        system.box.position_cartesian_to_relative(S['pos'][:1])
+                    else:
+                        system.atoms_df(scale=['pos'])
+                    labels.add('read_between')
+                    done.append('read ' + w)
+            except Violation as v:
+                if hist in v.detail:
+                    raise
+                raise Violation(v.detail + hist, key=v.key) from None
+        if ndumps >= 2 and ('rel_after_inplace_wrap' in labels or 'rel_after_modification' in labels):
             labels.add('nt')
         return labels
     finally:
@@ -1116,26 +1525,38 @@ def oracle_reject(case):
 # ============================================================================= clauses
 
 CLAUSES = [
-    Clause('data_file', oracle_data, data_cases, quick=2400, thorough=40000,
+    Clause('data_file', oracle_data, data_cases, quick=2000, thorough=40000,
            min_share=_Guards({'nt': 0.08, 'imageflags': 0.1, 'shuffled': 0.02, 'hybrid': 0.05, 'extended': 0.2,
                               'velocities': 0.14, 'comments_blank': 0.11, 'multitype': 0.06}, 0),
            desc="load('atom_data', dump('atom_data')): cell after the documented wrap, types, positions with image flags "
                 "re-applied, every style column and the Velocities section, all styles/units/formats; shuffled lines, "
                 "comments, blank lines, string/path/stream give the identical system"),
-    Clause('dump_file', oracle_dump, dump_cases, quick=2000, thorough=36000,
+    Clause('dump_file', oracle_dump, dump_cases, quick=1800, thorough=36000,
            min_share=_Guards({'nt': 0.09, 'shuffled': 0.08, 'with_prop_info': 0.16, 'own_ids': 0.09, 'scaled_cols': 0.05,
-                              'unit_dim_shape': 0.23, 'one_column_shape': 0.15}, 0),
+                              'unit_dim_shape': 0.23, 'one_column_shape': 0.15, 'explicit_columns': 0.17,
+                              'load_via_lists': 0.09, 'load_via_prop_info': 0.035, 'dump_via_prop_info': 0.04,
+                              'none_unit_std_prop': 0.05, 'explicit_dtype': 0.15}, 0),
            desc="load('atom_dump', dump('atom_dump')): cell from bounding box, pbc flags, ids, types, pos/spos/upos/supos, "
                 "standard columns with units and free properties with their shape through the returned prop_info"),
-    Clause('table', oracle_table, table_cases, quick=1800, thorough=30000,
+    Clause('table', oracle_table, table_cases, quick=1600, thorough=30000,
            min_share=_Guards({'nt': 0.2, 'rank2plus': 0.2, 'unit_conv': 0.14, 'header': 0.15, 'shuffled': 0.04,
-                              'unit_dim_shape': 0.26, 'one_column_shape': 0.18}, 0),
+                              'unit_dim_shape': 0.26, 'one_column_shape': 0.18, 'explicit_columns': 0.18,
+                              'load_via_lists': 0.09, 'load_via_prop_info': 0.035, 'dump_via_prop_info': 0.055,
+                              'mixed_none_units': 0.13}, 0),
            desc="load('table', dump('table'), prop_info=<returned>): every property with shape, unit/scaled conversion "
                 "undone, header line, comments, blank lines, id column"),
-    Clause('poscar', oracle_poscar, poscar_cases, quick=2000, thorough=36000,
+    Clause('poscar', oracle_poscar, poscar_cases, quick=1600, thorough=36000,
            min_share=_Guards({'nt': 0.2, 'cartesian': 0.25, 'scaled_box': 0.3, 'type_gap': 0.15, 'symbols_line': 0.2, 'multitype': 0.14}, 1),
            desc="load('poscar', dump('poscar')): cell (scale factor), types grouped, symbols line, positions as type-wise "
                 "multisets (direct: relative coordinates; Cartesian: up to the origin shift)"),
-    Clause('reject', oracle_reject, reject_cases, quick=1200, thorough=20000, min_share={'nt': 0.35},
+    Clause('history', oracle_history, history_cases, quick=700, thorough=15000,
+           min_share=_Guards({'nt': 0.17, 'redump': 0.4, 'rel_after_inplace_wrap': 0.15, 'rel_after_inplace_extension': 0.13,
+                              'rel_after_modification': 0.05, 'safecopy': 0.17, 'box_modified': 0.06, 'pos_modified': 0.06,
+                              'explicit_columns': 0.14}, 0),
+           desc="the same System object written repeatedly (data file with safecopy on/off, dump file, table, POSCAR) with "
+                "box/positions/pbc modified through the public setters in between: every dump + load judged as in the "
+                "single-dump clauses against the state of the object at that moment; safecopy=True and the other writers "
+                "leave the object as it was"),
+    Clause('reject', oracle_reject, reject_cases, quick=1000, thorough=20000, min_share={'nt': 0.35},
            desc="a data file without its atom count, a bounds line or its Atoms section raises FileFormatError"),
 ]
